@@ -403,7 +403,7 @@ def run(ctx):
                     for kind in ("rx", "tx"):
                         evs = busy_schedule(T, gap, (2 * T) // gap + 2, kind)
                         add(tls, valet, T, 0, evs, run_events(tls, valet, T, 0, evs), "busy")
-            for _ in range(ctx.n(150, 1500)):
+            for _ in range(ctx.n(600, 4000)):
                 T = ctx.rng.choice([0, 3, 4, 8, 16])
                 t0 = ctx.rng.choice([0, 0, 5, 64])
                 evs = random_events(ctx.rng, max(T, 2))
